@@ -17,6 +17,10 @@ mod c04;
 #[cfg(kani)]
 mod c06;
 #[cfg(kani)]
+mod c07;
+#[cfg(kani)]
+mod c08;
+#[cfg(kani)]
 mod warmup {
     kproof!(warmup, 4, {
         let x: u8 = kani::any();
